@@ -166,10 +166,11 @@ def bounded_pipeline(seed, tier):
         cases = [(label, s2, '~\n'.join(s2) + '~\n') for label, s2 in mutations(segs, rnd, n_random)]
         # the same document under other delimiters, with data that contains the ACKNOWLEDGEMENT's delimiters (~ * :): an echoed
         # value must not add or split elements or segments of the 997/999
-        for k in [i for i, sg in enumerate(segs) if sg.split('*')[0] in ('NM1', 'REF', 'CLM', 'N3', 'BHT')][:3]:
+        for k in [i for i, sg in enumerate(segs) if sg.split('*')[0] in ('NM1', 'REF', 'CLM', 'N3', 'BHT')][:3] + \
+                [i for i, sg in enumerate(segs) if sg.split('*')[0] in ('ST', 'GS')][:2]:
             for bad in ('A*B', 'A~B', 'A:B', '*', '~~'):
                 parts = segs[k].split('*')
-                j = min(2, len(parts) - 1)
+                j = min(6 if parts[0] == 'GS' else 2, len(parts) - 1)
                 s3 = segs[:k] + ['*'.join(parts[:j] + [parts[j] + 'Q' * 70 + '\0' + bad] + parts[j + 1:])] + segs[k + 1:]
                 enc = ''
                 for sg in s3:
@@ -281,6 +282,13 @@ def bounded_pipeline(seed, tier):
                 ak2 = [s.get_value('02') for s in asegs if s.get_seg_id() == 'AK2']
                 if [x.strip() for x in src_st] != ak2 and len(ak2) != 0 and label in ('identity',):
                     problems.append('C05: AK2 control numbers %r differ from the source sets %r' % (ak2, src_st))
+                if problems and label.startswith('value ') and (' in GS under' in label or ' in ST under' in label):
+                    c06 = [p for p in problems if p.startswith('C06')]
+                    if c06:
+                        # one class, keyed by the input: a CONTROL NUMBER (GS06 / ST02) that holds a delimiter of the acknowledgement
+                        problems = [p for p in problems if not p.startswith('C06')] + [
+                            "C06: a group/set control number that holds one of the acknowledgement's delimiters is copied raw into "
+                            "GS06/AK102/AK202/GE02 and adds elements or splits segments there (%s)" % label]
                 if problems:
                     key = '; '.join(sorted(set(p.split(':')[0] + ':' + p.split(':')[1][:40] for p in problems)))
                     if len(failures) < 8:
